@@ -11,4 +11,7 @@ go build -tags verif -overlay bin/overlay/overlay.json -o bin/vcheck-shadow ./cm
 go build -race -tags verif -overlay bin/overlay/overlay.json -o bin/vcheck-race ./cmd/vcheck
 # conformance of the instrumentation: the repository's own tests must pass inside the overlay build
 (cd /repo && go test -tags verif -overlay /verif/bin/overlay/overlay.json -vet=off -count=1 ./... > /verif/bin/overlay-selftest.log 2>&1) || { echo "overlay conformance run failed"; tail -5 bin/overlay-selftest.log; exit 1; }
+# the reference model must agree with the GDA vector files (external authority), else nothing it says is believed
+./bin/vcheck selftest-ref /repo/testdata > bin/selftest-ref.log 2>&1 || { echo "reference model self-test failed"; head -20 bin/selftest-ref.log; exit 1; }
+head -1 bin/selftest-ref.log
 echo "setup ok"
